@@ -266,7 +266,7 @@ theorem setArg_restores_stand {x y : Grid} {a : ArgV} (hx : GridInvNoStand x) (h
 
 /-! ## Inherited list operations outside the property's list, and basis data -/
 
-/-- `del mfd[i]`, `mfd + […]`, `mfd * k`, `mfd *= k`, `copy`, `sort` keep a consistent multivariate
+/-- `del mfd[i]`, `mfd + […]`, `mfd * k`, `mfd *= k`, `sort` keep a consistent multivariate
 object consistent (`+` and `*` go through the constructor; the others only drop or repeat components). -/
 theorem xop_preserves (cs ds : List Grid) (op : XOp) (h : StateInv (.multi cs))
     (hop : ∀ i r, op ≠ .setItem i r) (hop' : ∀ rs, op ≠ .iadd rs) (hr : stepX cs op = .ok ds) :
@@ -306,7 +306,6 @@ theorem xop_preserves (cs ds : List Grid) (op : XOp) (h : StateInv (.multi cs))
     simp only [stepX] at hr
     cases hr
     exact ⟨fun d hd => h.1 d (hrep k d hd), h.2.subset (hrep k)⟩
-  | copy => simp only [stepX] at hr; cases hr; exact h
   | sort =>
     simp only [stepX] at hr
     split at hr
